@@ -131,6 +131,12 @@ func (pm *patternMatcher) matchPart(part *cypher.PatternPart, r row, emit func(r
 	return pm.forEachNode(nodes[0], r, func(start int64, r1 row) error {
 		return pm.walk(nodes, rels, 0, start, r1, []int64{start}, nil, func(r2 row, pathNodes, pathEdges []int64) error {
 			if pathVar != "" {
+				if part.PathDirectionReversed {
+					// The optimiser reversed this pattern's elements and directions and marks the part so that the
+					// bound path keeps the ORIGINAL left-to-right order (cypher.PatternPart.PathDirectionReversed):
+					// the path value of the rewritten model is the reverse of the traversal order.
+					pathNodes, pathEdges = reversedIDs(pathNodes), reversedIDs(pathEdges)
+				}
 				r2 = r2.with(pathVar, pm.ev.pathVal(pathNodes, pathEdges))
 			}
 			return emit(r2)
@@ -147,6 +153,14 @@ func (ev *evaluator) pathVal(nodeIDs, edgeIDs []int64) gmodel.PathVal {
 		p.Edges[i] = ev.edges[id].Val()
 	}
 	return p
+}
+
+func reversedIDs(ids []int64) []int64 {
+	out := make([]int64, len(ids))
+	for i, id := range ids {
+		out[len(ids)-1-i] = id
+	}
+	return out
 }
 
 func appendID(ids []int64, id int64) []int64 {
